@@ -92,19 +92,31 @@ theorem wf_abs_of_wfr {s : Sys π ν} (hs : Sane s) (hw : WFr s) : s.abs.WF := b
     intro e he
     obtain ⟨p, hp, rfl⟩ := mem_abs_comps.mp he
     simp [Sys.absEntry, hw.nodes_get p hp]
-  · intro e he hm x hx
+  · intro e he hm
     obtain ⟨p, hp, rfl⟩ := mem_abs_comps.mp he
     have h2 : 1 < (s.predInfo p.1).length := hm
     rw [predInfo_length hs] at h2
-    obtain ⟨l, hl, hl'⟩ := hw.inputs p hp h2
-    have hx' : x ∈ l.map fun o => o.bind s.nameOf := by
-      have : (s.absEntry p).parents = l.map fun o => o.bind s.nameOf := by simp [Sys.absEntry, hl]
-      rw [← this]; exact hx
-    obtain ⟨o, ho, rfl⟩ := List.mem_map.mp hx'
-    obtain ⟨q, hq, rfl⟩ := hl' o ho
-    obtain ⟨c, hc⟩ := payload?_of_mem_ids (preds_live hs hq).1
-    refine ⟨nameOfC c, by simp [Sys.nameOf, hc], ?_⟩
-    exact List.mem_map.mpr ⟨(nameOfC c, kindOfC c), mem_predInfo.mpr ⟨q, hq, c, hc, rfl⟩, rfl⟩
+    obtain ⟨l, hl, hl', hlnd⟩ := hw.inputs p hp h2
+    have hpar : (s.absEntry p).parents = l.map fun o => o.bind s.nameOf := by simp [Sys.absEntry, hl]
+    constructor
+    · intro x hx
+      rw [hpar] at hx
+      obtain ⟨o, ho, rfl⟩ := List.mem_map.mp hx
+      obtain ⟨q, hq, rfl⟩ := hl' o ho
+      obtain ⟨c, hc⟩ := payload?_of_mem_ids (preds_live hs hq).1
+      refine ⟨nameOfC c, by simp [Sys.nameOf, hc], ?_⟩
+      exact List.mem_map.mpr ⟨(nameOfC c, kindOfC c), mem_predInfo.mpr ⟨q, hq, c, hc, rfl⟩, rfl⟩
+    · rw [hpar]
+      apply nodup_map_on _ hlnd
+      intro o1 h1 o2 h2' heq
+      obtain ⟨q1, hq1, rfl⟩ := hl' o1 h1
+      obtain ⟨q2, hq2, rfl⟩ := hl' o2 h2'
+      obtain ⟨c1, hc1⟩ := payload?_of_mem_ids (preds_live hs hq1).1
+      obtain ⟨c2, hc2⟩ := payload?_of_mem_ids (preds_live hs hq2).1
+      simp only [Option.bind_some, Sys.nameOf, hc1, hc2, Option.map_some, Option.some.injEq] at heq
+      have := name_inj hw.names_nodup (mem_of_payload? hc1) (mem_of_payload? hc2) heq
+      simp only [Prod.mk.injEq] at this
+      rw [this.1]
 
 theorem wfr_of_wf_abs {s : Sys π ν} (hs : Sane s) (h : s.abs.WF) : WFr s := by
   obtain ⟨a1, a2, a3, a4, a5, a6, a7, a8, a9, a10⟩ := h
@@ -149,27 +161,29 @@ theorem wfr_of_wf_abs {s : Sys π ν} (hs : Sane s) (h : s.abs.WF) : WFr s := by
   · intro x; exact ⟨k4 x, k4' x⟩
   · intro p hp hm
     have hm' : 1 < (s.predInfo p.1).length := by rw [predInfo_length hs]; exact hm
-    have hin := a10 _ (hent p hp) hm'
+    obtain ⟨hin, hnd⟩ := a10 _ (hent p hp) hm'
     cases hl : s.parentsOf p.1 with
     | error e =>
       have : (s.absEntry p).parents = [none] := by simp [Sys.absEntry, hl]
       obtain ⟨q, hq, _⟩ := hin none (by rw [this]; simp)
       simp at hq
     | ok l =>
-      refine ⟨l, rfl, ?_⟩
-      intro o ho
       have hpar : (s.absEntry p).parents = l.map fun o => o.bind s.nameOf := by simp [Sys.absEntry, hl]
-      obtain ⟨pn, hpn, hpm⟩ := hin (o.bind s.nameOf) (by rw [hpar]; exact List.mem_map.mpr ⟨o, ho, rfl⟩)
-      obtain ⟨pi, hpi, rfl⟩ := List.mem_map.mp hpm
-      obtain ⟨q, hq, c, hc, rfl⟩ := mem_predInfo.mp hpi
-      cases o with
-      | none => simp at hpn
-      | some q' =>
-        simp only [Option.bind_some, Sys.nameOf, Option.map_eq_some_iff] at hpn
-        obtain ⟨c', hc', hn⟩ := hpn
-        have := name_inj hnn (mem_of_payload? hc') (mem_of_payload? hc) hn
-        simp only [Prod.mk.injEq] at this
-        exact ⟨q, hq, by rw [this.1]⟩
+      refine ⟨l, rfl, ?_, ?_⟩
+      · intro o ho
+        obtain ⟨pn, hpn, hpm⟩ := hin (o.bind s.nameOf) (by rw [hpar]; exact List.mem_map.mpr ⟨o, ho, rfl⟩)
+        obtain ⟨pi, hpi, rfl⟩ := List.mem_map.mp hpm
+        obtain ⟨q, hq, c, hc, rfl⟩ := mem_predInfo.mp hpi
+        cases o with
+        | none => simp at hpn
+        | some q' =>
+          simp only [Option.bind_some, Sys.nameOf, Option.map_eq_some_iff] at hpn
+          obtain ⟨c', hc', hn⟩ := hpn
+          have := name_inj hnn (mem_of_payload? hc') (mem_of_payload? hc) hn
+          simp only [Prod.mk.injEq] at this
+          exact ⟨q, hq, by rw [this.1]⟩
+      · rw [hpar] at hnd
+        exact nodup_of_nodup_map _ hnd
 
 theorem wf_abs_iff {s : Sys π ν} (hs : Sane s) : s.abs.WF ↔ WFr s :=
   ⟨wfr_of_wf_abs hs, wf_abs_of_wfr hs⟩
